@@ -50,7 +50,14 @@ RULE = ("every set of 1-3 distinct strict orders over 3 alternatives (dynamic pr
         "mirror; plus 300 (1500) profiles with 7 alternatives against the verified reference min_alt_del; plus 200 (1000) "
         "profiles with 11-15 alternatives. On EVERY strict profile (2-15 alternatives) the number of alternatives "
         "removed by k_alternative_deletion and the objective of the alternative-deletion ILP are compared with the "
-        "exact optimum computed by the fast verified reference c12.fast_min_alt (fast_min_alt_correct: = min_alt_del)")
+        "exact optimum computed by the fast verified reference c12.fast_min_alt (fast_min_alt_correct: = min_alt_del). "
+        "Histories (c12.hist): the three functions called several times in several orders on ONE instance object "
+        "(answers judged against the original profile, common.snapshot after every call, returned lists poisoned, "
+        "helpers of the dynamic programme must leave their list arguments unchanged), preceded by another instance "
+        "with the same or overlapping ids in the same worker call, with instance.orders / multiplicity / "
+        "alternatives_name in decoupled storage orders, numpy.int64 ids, and recompute_cardinality_param / "
+        "flatten_strict / full_profile before and between the calls. Index cases: 11-14 alternatives / >= 11 orders "
+        "with the element to delete at index >= 10")
 EXHAUSTIVE = {"quick": "k_alternative_deletion on every set of 1-3 distinct strict orders over 3 alternatives; ILP "
                        "encodings (3 functions) on every profile of 1-2 distinct weak orders over m <= 2 alternatives and "
                        "every single weak order over 3",
@@ -267,7 +274,7 @@ def generate(tier, seed):
     rng = random.Random(1000003 * seed + 12)
     thorough = tier != "quick"
     out = []
-    budget = [220 if not thorough else 2600]
+    budget = [235 if not thorough else 2700]
 
     def ilp_flags(want=F_VOT | F_ALT):
         n = bin(want & 3).count("1")
@@ -365,6 +372,71 @@ def generate(tier, seed):
         fam = ["ic", "perturbed-sp"][i % 2]
         prof = impartial_culture(rng, alts, n) if fam == "ic" else perturbed_sp(rng, alts, n)
         out.append(mk(alts, prof, F_DP, 1, family="ref7-" + fam))
+    # ---- indices >= 10: 11-14 alternatives with the alternatives that have to be deleted LAST in alternatives_name
+    #      (index 10, 11, .. : "delAlt_10" vs "delAlt_0"), and >= 11 distinct orders with the spoiler orders last
+    #      ("delVoter_10"); certificates through cert_alt / cert_vot, upper bound from the planted certificate
+    def sp_lib(alts_, votes_):
+        """generation only: is the strict profile single-peaked (library recogniser of C03; the judge stays the model)"""
+        from preflibtools.properties.subdomains.ordinal.singlepeaked.singlepeakedness import is_single_peaked
+        return bool(is_single_peaked(ordinal_instance([([[a] for a in v], 1) for v in votes_], data_type="soc", alts=list(alts_)))[0])
+
+    def idx10_alt(m, s, weak):
+        """single-peaked on the first m - s alternatives; the s spoilers are the LAST ones of alternatives_name and each
+        of them has to go (no other single deletion repairs the profile when s = 1)"""
+        for _ in range(30):
+            ids = rand_ids(rng, m)
+            good, bad = ids[:m - s], ids[m - s:]
+            axis = rand_perm(rng, good)
+            votes = []
+            for _ in range(rng.randint(4, 5)):
+                v = [c[0] for c in planted_strict(rng, axis)]
+                for b in bad:
+                    v.insert(rng.randint(0, len(v)), b)
+                votes.append(v)
+            if len(set(map(tuple, votes))) < len(votes):
+                continue
+            if s == 1 and any(sp_lib([a for a in ids if a != x], [[a for a in v if a != x] for v in votes]) for x in good):
+                continue
+            if sp_lib(ids, votes):
+                continue
+            prof = [[[a] for a in v] for v in votes]
+            if weak:
+                prof = [([sorted(o[0] + o[1])] + o[2:]) if i % 2 == 0 else o for i, o in enumerate(prof)]
+            return ids, prof, [axis + bad, sorted(bad)]
+        return None
+
+    def idx10_vot(nbad):
+        for _ in range(30):
+            m = rng.randint(5, 6)
+            ids = rand_ids(rng, m)
+            axis = rand_perm(rng, ids)
+            good = []
+            while len(good) < rng.randint(10, 12):
+                v = planted_strict(rng, axis)
+                if v not in good:
+                    good.append(v)
+            bad = []
+            while len(bad) < nbad:
+                v = [[a] for a in rand_perm(rng, ids)]
+                if v not in good and v not in bad and not sp_lib(ids, [[c[0] for c in o] for o in good[:0] + [v]] +
+                                                                 [[c[0] for c in o] for o in good]):
+                    bad.append(v)
+            return ids, good + bad, [axis, list(range(len(good), len(good) + nbad))]
+        return None
+
+    for i in range(6 if not thorough else 60):
+        m = rng.randint(11, 13 if not thorough else 14)
+        r = idx10_alt(m, [1, 1, 2][i % 3], weak=(i % 2 == 1))
+        if r and budget[0] >= 1:
+            budget[0] -= 1
+            ids, prof, pa = r
+            out.append(mk(ids, prof, F_ALT | F_DP, 0, pa=pa, family="idx10-alt", large=1))
+    for i in range(5 if not thorough else 40):
+        r = idx10_vot(1 + i % 2)
+        if r and budget[0] >= 1:
+            budget[0] -= 1
+            ids, prof, pv = r
+            out.append(mk(ids, prof, F_VOT, 0, pv=pv, family="idx10-vot", large=1))
     # ---- histories on one instance object (round-5 lessons); see the c12.hist section
     def hist(alts, prof, script, variant, pre, **tags):
         dt = 0 if is_strict(prof) else 2
@@ -443,6 +515,8 @@ def generate(tier, seed):
             fam = "random"
         prof, _, _ = make_profile(rng, alts, rng.randint(1, 4), weak, fam)
         enc(alts, prof, family="enc-" + fam)
+    # spread the heavy cases over the worker / oracle partitions (deterministic)
+    random.Random(7 * seed + 1).shuffle(out)
     return out
 
 
